@@ -1,5 +1,5 @@
 import Rbacx.Generated
-import Driver.Codec
+import Driver.CmdC17
 /-!
   Per-run evaluator of the TRANSLATED parser dispatch (store/policy_loader.py) and command functions (cli.py) — `Rbacx.Generated.Src.parse_yaml`,
   `parse_policy_text`, `parse_policy_bytes`, `read_text_from_path_or_stdin`, `load_policy_from_arg`, `lint_doc`, `validate_doc`, `cmd_lint`,
@@ -12,28 +12,7 @@ import Driver.Codec
   the same stubs and compares: this validates the translator's reading and Model/PyCli.lean — what the obligation `C17_cli_translated`
   trusts.  Run with `lake env lean --run Rbacx/Run/SrcEvalCli.lean`.
 -/
-open Lean Codec Rbacx Rbacx.Generated Rbacx.PyX
-
-def decResX (j : Json) : Except String Res :=
-  match j.getObjVal? "ok" with
-  | .ok v => do let x ← decVal v; pure (.ok x)
-  | .error _ => do
-    let e := field j "err"
-    let code ← decVal (field e "code")
-    pure (.error { cls := fieldStr e "cls", msg := fieldStr e "msg", code := code })
-
-def encResX : Res → Json
-  | .ok v => Json.mkObj [("ok", encVal v)]
-  | .error e => Json.mkObj [("err", Json.mkObj [("cls", .str e.cls), ("msg", .str e.msg), ("code", encVal e.code)])]
-
-/-- the table of one external (`[[[arguments…], result], …]`) as a total function of the argument list -/
-def decExtX (j : Json) : Except String (List PyVal → Res) := do
-  let entries : List Json := match j with | .arr a => a.toList | _ => []
-  let rows : List (List PyVal × Res) ← entries.mapM fun (e : Json) =>
-    match e with
-    | .arr #[.arr args, r] => do let xs ← args.toList.mapM decVal; let y ← decResX r; pure (xs, y)
-    | _ => throw "bad ext entry"
-  pure fun args => match rows.find? (fun e => e.1 == args) with | some e => e.2 | none => .error { cls := "ExtMiss" }
+open Lean Codec Rbacx Rbacx.Generated Rbacx.PyX CliCodec
 
 def evalCli (x : String → List PyVal → Res) (fn : String) (args : List PyVal) : Except String Res :=
   let det := Src.detect_format
@@ -58,6 +37,7 @@ def evalCli (x : String → List PyVal → Res) (fn : String) (args : List PyVal
   | "cmd_lint", [a] => .ok (Src.cmd_lint a det open_read stdin_read json_loads import_yaml yaml_safe_load pra ap aps)
   | "cmd_validate", [a] => .ok (Src.cmd_validate a det open_read stdin_read json_loads import_yaml yaml_safe_load validate)
   | "cmd_check", [a] => .ok (Src.cmd_check a det open_read stdin_read json_loads import_yaml yaml_safe_load pra validate ap aps)
+  | "main", [argv] => .ok (Src.cli_main argv (x "build_parser" []) (fun a => x "parse_args" [a]) (fun a => x "call_func" [a]))
   | _, _ => .error s!"unknown function or arity: {fn}/{args.length}"
 
 partial def loop (hin hout : IO.FS.Stream) : IO Unit := do
@@ -67,14 +47,8 @@ partial def loop (hin hout : IO.FS.Stream) : IO Unit := do
     match Json.parse line with
     | .error e => Json.mkObj [("error", .str e)]
     | .ok j =>
-      let ext := field j "ext"
-      let names := ["open_read", "stdin_read", "bytes_decode", "json_loads", "import_yaml", "yaml_safe_load", "_parse_require_attrs",
-                    "validate_policy", "analyze_policy", "analyze_policyset", "build_parser", "parse_args", "call_func"]
-      match (match field j "args" with | .arr xs => xs.toList.mapM decVal | _ => .error "args"),
-            names.mapM (fun n => do let t ← decExtX (field ext n); pure (n, t)) with
-      | .ok args, .ok tables =>
-        let x : String → List PyVal → Res := fun n as =>
-          match tables.find? (fun t => t.1 == n) with | some t => t.2 as | none => .error { cls := "ExtMiss" }
+      match (match field j "args" with | .arr xs => xs.toList.mapM decVal | _ => .error "args"), decTables (field j "ext") with
+      | .ok args, .ok x =>
         (match evalCli x (fieldStr j "fn") args with
          | .ok r => encResX r
          | .error e => Json.mkObj [("error", .str e)])
